@@ -932,6 +932,16 @@ func genC06(g *Gen, tier string, emit func(op string, args ...string)) {
 			emit("scenario", "0", sec, strings.Join([]string{"S0", "s0", "S1", "s1", "D0:0:" + hx(good), "d0", "D1:0:" + hx(good), "d1", "D0:0:" + hx(good), "d2", "F1:2", "F0:2", "Z"}, ","))
 			emit("scenario", "0", sec, strings.Join([]string{"S0", "s0", "S1", "s1", "D1:1:" + hx(good), "d0", "D0:1:" + hx(good), "d1", "F0:3", "D1:1:" + hx(good), "d2", "F2:2", "F1:2", "Z"}, ","))
 		}
+		// the in-flight table is keyed by the PAIR (source address, identifier): pairs whose textual
+		// concatenation coincides ("peer1"+"23" = "peer12"+"3") are different requests
+		{
+			sec2 := "1:73,12:73,11:73,2:73,23:73"
+			for _, pr := range [][4]int{{1, 23, 12, 3}, {12, 3, 1, 23}, {1, 11, 11, 1}, {2, 31, 23, 1}, {1, 123, 11, 23}} {
+				a, b := hx(accessRequest(byte(pr[1]), "u")), hx(accessRequest(byte(pr[3]), "u"))
+				emit("scenario", "0", sec2, strings.Join([]string{"S0", "s0", "D0:" + itoa(pr[0]) + ":" + a, "d0", "D0:" + itoa(pr[2]) + ":" + b, "d1",
+					"D0:" + itoa(pr[0]) + ":" + a, "d2", "F1:2", "F0:2", "Z"}, ","))
+			}
+		}
 		for _, peers := range [][]int{{0, 1}, {1, 0}, {0, 1, 0}, {0, 0}} {
 			var pre []string
 			for t, pr := range peers {
